@@ -591,7 +591,9 @@ theorem truncRoots_path (H : Bytes → Bytes) (hlen : ∀ x, (H x).length = 32) 
       obtain ⟨hn0, hj0⟩ := h0
       have hvalid : validNode n0 = true := by rw [hn0]; exact validNode_node ht _
       have hne : t.take (k + 1) ≠ [] := by
-        intro h; have := congrArg List.length h; simp at this; omega
+        intro h
+        have hl : (t.take (k + 1)).length = k + 1 := by simp [Nat.min_eq_left hm]
+        rw [h] at hl; simp at hl
       rw [rootsOf_ne H _ hne, up_take H t (k + 1) hm]
       have hrest := ih (levelUp H t) ((k + 1) / 16) jrest (levelUp_all32 H hlen t)
         (by rw [levelUp_length]; exact Nat.div_le_div_right (by omega)) (by simp at hd; omega) (by simpa using hjs)
